@@ -16,6 +16,8 @@ for f in sorted(glob.glob('/verif/seeded/*/meta.json')):
             det.append('%s (%s)' % (p, ', '.join(obl)[:90]))
         elif v['exit'] == 2:
             det.append('%s: exit 2 (inconclusive, not a pass)' % p)
+        elif p != m.get('breaks_property'):
+            det.append('%s: passes (not the property this change breaks)' % p)
         else:
             det.append('%s: missed' % p)
     rows.append('| %s | %s | %s | %s |' % (m['id'], ', '.join(os.path.basename(x) for x in files), first.replace('|', '/'), '; '.join(det) or 'not run'))
